@@ -189,10 +189,65 @@ namespace xsimd
     }
 #endif
 
+    namespace detail
+    {
+        // Integer lanes wrap around, but +, -, * and unary - on a signed type are undefined on overflow (and the optimiser
+        // uses that: (x * 2) / 2 becomes x). Signed integers are therefore combined in an unsigned type at least as wide
+        // as int and converted back.
+        template <class R>
+        struct wraps_around : std::integral_constant<bool, std::is_integral<R>::value && std::is_signed<R>::value>
+        {
+        };
+        template <class R>
+        using wrap_unsigned_t = typename std::conditional<(sizeof(R) < sizeof(unsigned)), unsigned, typename std::make_unsigned<R>::type>::type;
+
+        template <class R>
+        XSIMD_INLINE R wrap_add(R x, R y, std::true_type) noexcept
+        {
+            return static_cast<R>(static_cast<wrap_unsigned_t<R>>(x) + static_cast<wrap_unsigned_t<R>>(y));
+        }
+        template <class R, class T, class Tp>
+        XSIMD_INLINE R wrap_add(T const& x, Tp const& y, std::false_type) noexcept
+        {
+            return x + y;
+        }
+        template <class R>
+        XSIMD_INLINE R wrap_sub(R x, R y, std::true_type) noexcept
+        {
+            return static_cast<R>(static_cast<wrap_unsigned_t<R>>(x) - static_cast<wrap_unsigned_t<R>>(y));
+        }
+        template <class R, class T, class Tp>
+        XSIMD_INLINE R wrap_sub(T const& x, Tp const& y, std::false_type) noexcept
+        {
+            return x - y;
+        }
+        template <class R>
+        XSIMD_INLINE R wrap_neg(R x, std::true_type) noexcept
+        {
+            return static_cast<R>(wrap_unsigned_t<R>(0) - static_cast<wrap_unsigned_t<R>>(x));
+        }
+        template <class R>
+        XSIMD_INLINE R wrap_neg(R const& x, std::false_type) noexcept
+        {
+            return -x;
+        }
+        template <class R>
+        XSIMD_INLINE R wrap_mul(R x, R y, std::true_type) noexcept
+        {
+            return static_cast<R>(static_cast<wrap_unsigned_t<R>>(x) * static_cast<wrap_unsigned_t<R>>(y));
+        }
+        template <class R, class T, class Tp>
+        XSIMD_INLINE R wrap_mul(T const& x, Tp const& y, std::false_type) noexcept
+        {
+            return x * y;
+        }
+    }
+
     template <class T, class Tp>
     XSIMD_INLINE typename std::common_type<T, Tp>::type add(T const& x, Tp const& y) noexcept
     {
-        return x + y;
+        using R = typename std::common_type<T, Tp>::type;
+        return detail::wrap_add<R>(x, y, detail::wraps_around<R> {});
     }
 
     template <class T, class Tp>
@@ -231,7 +286,7 @@ namespace xsimd
     template <class T>
     XSIMD_INLINE T incr(T const& x) noexcept
     {
-        return x + T(1);
+        return detail::wrap_add<T>(x, T(1), detail::wraps_around<T> {});
     }
 
     template <class T>
@@ -418,13 +473,14 @@ namespace xsimd
     template <class T, class Tp>
     XSIMD_INLINE typename std::common_type<T, Tp>::type mul(T const& x, Tp const& y) noexcept
     {
-        return x * y;
+        using R = typename std::common_type<T, Tp>::type;
+        return detail::wrap_mul<R>(x, y, detail::wraps_around<R> {});
     }
 
     template <class T>
     XSIMD_INLINE T neg(T const& x) noexcept
     {
-        return -x;
+        return detail::wrap_neg(x, detail::wraps_around<T> {});
     }
 
     template <class T>
@@ -914,13 +970,14 @@ namespace xsimd
     template <class T, class Tp>
     XSIMD_INLINE typename std::common_type<T, Tp>::type sub(T const& x, Tp const& y) noexcept
     {
-        return x - y;
+        using R = typename std::common_type<T, Tp>::type;
+        return detail::wrap_sub<R>(x, y, detail::wraps_around<R> {});
     }
 
     template <class T>
     XSIMD_INLINE T decr(T const& x) noexcept
     {
-        return x - T(1);
+        return detail::wrap_sub<T>(x, T(1), detail::wraps_around<T> {});
     }
 
     template <class T>
